@@ -4,7 +4,10 @@ import (
 	"encoding/json"
 	"fmt"
 	"os"
+	"oss.terrastruct.com/d2/d2format"
+	"oss.terrastruct.com/d2/d2parser"
 	"strconv"
+	"strings"
 
 	"verif/h/eng"
 )
@@ -34,7 +37,7 @@ func init() {
 				}
 				ops := Menu(g, menuFull)
 				for _, o := range ops {
-					fmt.Println(o)
+					fmt.Println(o.Mini, o.Op)
 				}
 				fmt.Println(len(ops), "ops")
 				continue
@@ -103,4 +106,39 @@ func splitLines(s string) []string {
 		ls = append(ls, cur)
 	}
 	return ls
+}
+
+func init() {
+	// edit-import: run the UpdateImport product and print outcome classes (developer aid)
+	eng.Internal["edit-import"] = func(args []string) {
+		cnt := map[string]int{}
+		ex := map[string]string{}
+		for _, c := range importCases() {
+			b, _ := json.Marshal(c)
+			res := importOracle(string(b))
+			k := res.Outcome
+			if res.Fail != nil {
+				k = "FAIL " + res.Fail.Class
+				if _, ok := ex[k]; !ok {
+					ex[k] = res.Fail.Detail
+				}
+			}
+			cnt[k]++
+		}
+		for _, k := range sortedKeys(cnt) {
+			fmt.Printf("%5d %s\n", cnt[k], k)
+			if d, ok := ex[k]; ok {
+				fmt.Println("        ", d)
+			}
+		}
+	}
+}
+
+func init() {
+	eng.Internal["edit-fmt"] = func(args []string) {
+		for _, a := range args {
+			m, err := d2parser.Parse("index.d2", strings.NewReader(a), nil)
+			fmt.Printf("%q -> %q (err %v)\n", a, d2format.Format(m), err)
+		}
+	}
 }
